@@ -59,6 +59,20 @@ Fixpoint levels (gs : list stage) (H : nat) (up : script N * (script N -> hintT)
   | g :: r => levels r H (level g H up)
   end.
 
+Fixpoint has_end {B} (t : list (hintT * pstep B)) : bool :=
+  match t with
+  | [] => false
+  | (_, Ended) :: _ => true
+  | _ :: r => has_end r
+  end.
+
+(* every intermediate level reports its end within the horizon *)
+Fixpoint horizon_ok (gs : list stage) (H : nat) (up : script N * (script N -> hintT)) : bool :=
+  match gs with
+  | [] => true
+  | g :: r => has_end (stage_polls g (snd up) (fst up) H) && horizon_ok r H (level g H up)
+  end.
+
 Record pcase := PCase { p_h : nat; p_inner : list stage; p_top : stage; p_src : srcN }.
 
 Definition prun (c : pcase) (n : nat) : trace :=
@@ -71,5 +85,8 @@ Definition pref (c : pcase) : list val :=
 Definition pfused (c : pcase) : bool :=
   stage_fused (p_top c) (fold_left (fun b g => stage_fused g b) (p_inner c) (fused_b (s_scr (p_src c)))).
 
+(* bit 0 also demands that the horizon was sufficient for the model to be meaningful *)
 Definition pchk (c : pcase) (impl : trace) : N :=
-  verdict (trace_eqb impl (prun c (length impl))) (gen_ok (pref c) (pfused c) impl).
+  verdict (horizon_ok (p_inner c) (p_h c) (s_scr (p_src c), sh (p_src c)) &&
+           trace_eqb impl (prun c (length impl)))
+          (gen_ok (pref c) (pfused c) impl).
